@@ -22,7 +22,7 @@ def shown(cls, f, v):
 
 
 # what a layer needs before its typed options mean anything on the wire
-PREP = {'ICMPv6': ['set 0 type 134'], 'PPPoE': ['set 0 code 9'],
+PREP = {'ICMPv6': ['set 0 type 134'], 'PPPoE': ['set 0 code 9'], 'IP': ['set 0 src_addr 167772161'],      # (an unset IPv4 source is filled in from the routing table)
         ('ICMPv6', 'multicast_address_records'): ['set 0 type 143'], ('ICMPv6', 'sources'): ['set 0 type 130'], ('ICMPv6', 'multicast_addr'): ['set 0 type 130']}
 
 
